@@ -137,7 +137,7 @@ MUTANTS += [
     dict(name="c14_score_uses_unrelative_y", prop="C14", file=PCV,
          old="            + np.linalg.norm(Y - y) ** 2.0 / np.linalg.norm(Y) ** 2.0", new="            + np.linalg.norm(Y - y) ** 2.0 / np.linalg.norm(y) ** 2.0"),
     dict(name="c14_tol_cut_relative_bug", prop=["C14", "C03"], file=PCV, count=1,
-         old="        S_sqrt_inv = np.diagflat([1.0 / np.sqrt(s) if s > self.tol else 0.0 for s in S])\n        T = Vt.T @ S_sqrt_inv",
+         old="        S_sqrt_inv = np.diagflat([1.0 / np.sqrt(s) if s > S_tol else 0.0 for s in S])\n        T = Vt.T @ S_sqrt_inv",
          new="        S_sqrt_inv = np.diagflat([1.0 / np.sqrt(s) if s > 1e-3 else 0.0 for s in S])\n        T = Vt.T @ S_sqrt_inv"),
 ]
 
@@ -230,7 +230,7 @@ MUTANTS += [
     dict(name="c12_unweighted_pred_cols", prop="C12", file=PRE,
          old="        if self.with_center:\n            K_pred_cols = np.average(K, weights=self.sample_weight_, axis=1)[\n                :, np.newaxis\n            ]\n        else:\n            K_pred_cols = np.zeros((K.shape[0], 1))\n\n        K -= self.K_fit_rows_\n        K -= K_pred_cols\n        K += self.K_fit_all_\n\n        return K / self.scale_",
          new="        if self.with_center:\n            K_pred_cols = np.average(K, axis=1)[\n                :, np.newaxis\n            ]\n        else:\n            K_pred_cols = np.zeros((K.shape[0], 1))\n\n        K -= self.K_fit_rows_\n        K -= K_pred_cols\n        K += self.K_fit_all_\n\n        return K / self.scale_"),
-    dict(name="c12_scale_from_uncentred_trace", prop=["C12", "C05"], file=PRE,
+    dict(name="c12_scale_from_uncentred_trace", prop="C12", file=PRE,
          old="            K += self.K_fit_all_\n\n            self.scale_ = np.trace(K) / K.shape[0]",
          new="            K += self.K_fit_all_ + self.K_fit_rows_ + K_pred_cols - 2 * self.K_fit_all_\n\n            self.scale_ = np.trace(K) / K.shape[0]"),
     dict(name="c12_sparse_scale_no_sqrt", prop="C12", file=PRE,
@@ -356,7 +356,7 @@ MUTANTS += [
     dict(name="c16_nn_fallback_dropped", prop="C16", file=QS,
          old="        if probs[idxn] > probs[idx]:\n            next_idx = idxn", new="        if probs[idxn] > probs[idx] and cutoff > 1e-2:\n            next_idx = idxn"),
     dict(name="c16_scale_not_squared", prop="C16", file=QS,
-         old="            self.dist_cutoff_sq *= self.scale**2", new="            self.dist_cutoff_sq *= self.scale"),
+         old="            self.dist_cutoff_sq = self.dist_cutoff_sq * self.scale**2", new="            self.dist_cutoff_sq = self.dist_cutoff_sq * self.scale"),
     dict(name="c16_gabriel_asymmetric", prop="C16", file=QS,
          old="                gabriel[i, j] = False\n                gabriel[j, i] = False", new="                gabriel[i, j] = False\n                gabriel[j, i] = False if (i + j) % 7 else True"),
     dict(name="c16_order_dependent_first_max", prop="C16", file=QS,
